@@ -1218,6 +1218,12 @@ func (m *Manager) Unlock(ns walletdb.ReadBucket, passphrase []byte) error {
 	// extended keys.
 	for _, manager := range m.scopedManagers {
 		for account, acctInfo := range manager.acctInfo {
+			// Accounts imported from an extended public key have
+			// no private key to decrypt.
+			if len(acctInfo.acctKeyEncrypted) == 0 {
+				continue
+			}
+
 			decrypted, err := m.cryptoKeyPriv.Decrypt(acctInfo.acctKeyEncrypted)
 			if err != nil {
 				m.lock()
@@ -1247,6 +1253,15 @@ func (m *Manager) Unlock(ns walletdb.ReadBucket, passphrase []byte) error {
 			if err != nil {
 				m.lock()
 				return err
+			}
+
+			// Addresses of accounts imported from an extended
+			// public key have no private key to derive.
+			if !addressKey.IsPrivate() {
+				addressKey.Zero()
+				manager.deriveOnUnlock[0] = nil
+				manager.deriveOnUnlock = manager.deriveOnUnlock[1:]
+				continue
 			}
 
 			// It's ok to ignore the error here since it can only
